@@ -959,6 +959,44 @@ func checkAliasRename(c *Ctx, rule string, gen *packages.Package) {
 			if !uses {
 				return true
 			}
+			// names that hold a renamed alias (renamed again when the new alias is taken too)
+			renamed := map[string]bool{key: true}
+			ast.Inspect(ifs.Body, func(u ast.Node) bool {
+				if as2, ok := u.(*ast.AssignStmt); ok && len(as2.Lhs) == 1 && len(as2.Rhs) == 1 {
+					if rc, ok := ast.Unparen(as2.Rhs[0]).(*ast.CallExpr); ok {
+						if fn := goan.Callee(info, rc); fn != nil && fn.Name() == "renameOperationPackage" {
+							renamed[goan.ExprString(as2.Lhs[0])] = true
+						}
+					}
+				}
+				return true
+			})
+			// the alias made for a taken alias is looked up in its turn, until one is free
+			again := false
+			ast.Inspect(ifs.Body, func(u ast.Node) bool {
+				fs, ok := u.(*ast.ForStmt)
+				if !ok {
+					return true
+				}
+				looks, renames := false, false
+				ast.Inspect(fs, func(w ast.Node) bool {
+					switch x := w.(type) {
+					case *ast.IndexExpr:
+						if goan.ExprString(x.X) == goan.ExprString(ix.X) {
+							looks = true
+						}
+					case *ast.CallExpr:
+						if fn := goan.Callee(info, x); fn != nil && fn.Name() == "renameOperationPackage" {
+							renames = true
+						}
+					}
+					return true
+				})
+				again = again || (looks && renames)
+				return true
+			})
+			c.Check(again, rule, "generator.appGenerator.makeCodegenApp › a renamed alias is looked up again", c.posOf(gen, ifs.Pos()), "loop: while the new alias is taken, rename again",
+				"the alias made for a taken alias is registered without being looked up: with tags api, apiops and apiopsops the package `api` is renamed apiops, then apiopsops — which another package holds — and two packages share one alias: exit 0, and neither server nor client builds")
 			ast.Inspect(ifs.Body, func(u ast.Node) bool {
 				call, ok := u.(*ast.CallExpr)
 				if !ok {
@@ -968,6 +1006,9 @@ func checkAliasRename(c *Ctx, rule string, gen *packages.Package) {
 					return true
 				}
 				n++
+				if renamed[goan.ExprString(call.Args[1])] && goan.ExprString(call.Args[1]) != key {
+					return true // a second renaming of the alias just made
+				}
 				c.Check(goan.ExprString(call.Args[1]) == key, rule, "generator.appGenerator.makeCodegenApp › the alias found taken is the one renamed", c.posOf(gen, call.Pos()), "renameOperationPackage(…, "+key+")",
 					fmt.Sprintf("the alias looked up is `%s` but the name renamed is `%s`: for a package whose alias already differs from its name (api → apiops) the new alias is made from the name and may be one another package holds — both packages end up in one group, one client package is never written and the generated code does not build, with exit status 0", key, goan.ExprString(call.Args[1])))
 				return true
